@@ -104,6 +104,12 @@ pub fn run_notes<E: EndianParse>(o: W, e: E, c: Class, align: usize, d: &[u8], q
         sep(o, k)?;
         match (q[0].w(), q.len()) {
             ("all", 1) => show_notes(o, d, NoteIterator::new(e, c, align, d))?,
+            ("walk", _) => {
+                let was = crate::alloc_count::suspend();
+                let acts: Vec<usize> = q[1..].iter().map(|t| t.us()).collect();
+                crate::alloc_count::restore(was);
+                walk_iter(o, NoteIterator::new(e, c, align, d), &acts, &|o, n: &Note| show_note(o, d, n))?;
+            }
             ("nexts", 2) => {
                 let mut it = NoteIterator::new(e, c, align, d);
                 o.write_str("[")?;
